@@ -518,7 +518,7 @@ func CheckC18(c *Ctx) {
 		}
 	}
 	c.SetReport(Report{
-		Rule:        "defect injector with planted ground truth: for every element position of well-formed source vectors (pairwise cover + seeded random spellings) it plants exactly one defect -- illegal value (5 variants), repeated metric (adjacent / at the end / random place, same or other value), unknown abbreviation inserted (6 variants, before the element and at the end) or replacing, misplaced (swap / move; v2,v4), missing base metric (v3), truncation at element boundaries inside a group that must be complete (v2,v4), header variants (v3,v4) -- and the returned error must be the documented value under errors.Is / errors.As (+Abv). Mutants the recogniser still accepts are dropped; defect kinds whose value the statement does not fix (empty v2 string, garbage glued to a v4 header, empty element) are not generated. Get/Set: complete hostile abbreviation x value matrix. distinct = distinct defective strings",
+		Rule:        "defect injector with planted ground truth: for every element position of well-formed source vectors (pairwise cover + seeded random spellings) it plants exactly one defect -- illegal value (5 variants; also the element reduced to its abbreviation without a colon, and values containing a second colon), repeated metric (adjacent / at the end / random place, same or other value), unknown abbreviation inserted (6 variants, before the element and at the end; also colon-less tokens and the empty abbreviation) or replacing, misplaced (swap / move; v2,v4), missing base metric (v3), truncation at element boundaries inside a group that must be complete (v2,v4), header variants (v3,v4) -- and the returned error must be the documented value under errors.Is / errors.As (+Abv). Mutants the recogniser still accepts are dropped; defect kinds whose value the statement does not fix (empty v2 string, garbage glued to a v4 header, empty element) are not generated. Get/Set: complete hostile abbreviation x value matrix. distinct = distinct defective strings",
 		Assumptions: []string{"expected error per defect kind exactly as listed in C18's statement"},
 	})
 	c.Finish()
